@@ -215,3 +215,14 @@ Theorem C02_engine_context_refines_C04 :
       abs_state cn cv (add_local k v s) = Context.add_local (cn k) (cv v) (abs_state cn cv s) /\
       abs_state cn cv (add_global k v s) = Context.add_global (cn k) (cv v) (abs_state cn cv s).
 Proof. exact context_refines. Qed.
+
+(* \newif switches are in F2: NNewSwitch n = \newif\ifzs<n>, NSetSwitch n b = \zs<n>true / \zs<n>false, test TSwitch n = \ifzs<n>;
+   interpreter-wide state (not undone by groups); gdef_safe demands the declaration before a test or a setter.
+   \newif\ifS \ifS W1 \else W2 \fi {\Strue}\ifS W3 \fi \newif\ifS \Sfalse \ifS\else W4 \fi   ->   W2 W3 W4 *)
+Example C02_engine_example_switch :
+  let p := ([NNewSwitch 1; NCond (TSwitch 1) [NWord 1] (Some [NWord 2]); NGroup [NSetSwitch 1 true];
+            NCond (TSwitch 1) [NWord 3] None; NNewSwitch 1; NSetSwitch 1 false; NCond (TSwitch 1) [] (Some [NWord 4])])%Z in
+  in_F2 p = true /\ gdef_safe 100 p = true /\
+  (exists e, den 100 p = Ok e [4; 3; 2]%Z) /\
+  (exists st T, run 300 (init (print p)) [] = Done st T /\ text_of T = words_text [2; 3; 4]%Z).
+Proof. vm_compute. repeat split; eexists; try eexists; repeat split. Qed.
